@@ -81,8 +81,12 @@ fn poke(ctx: &mut Ctx, st: FlowSt) {
                 let _ = lib("Flow<Redirect>::status", || f.status());
                 let _ = lib("Flow<Redirect>::must_close_connection", || f.must_close_connection());
                 let _ = lib("Flow<Redirect>::close_reason", || f.close_reason());
-                let _ = lib("Flow<Redirect>::as_new_flow", || f.as_new_flow(RedirectAuthHeaders::SameHost).map(|o| o.is_some()));
+                let nf = lib("Flow<Redirect>::as_new_flow", || f.as_new_flow(RedirectAuthHeaders::SameHost));
                 let _ = lib("repeat_Flow<Redirect>::as_new_flow", || f.as_new_flow(RedirectAuthHeaders::Never).map(|o| o.is_some()));
+                if let Ok(Some(nf)) = nf {
+                    // whatever target the hostile Location produced becomes the base of the next hop
+                    follow_once(ctx, nf);
+                }
                 FlowSt::Cleanup(lib("Flow<Redirect>::proceed", || f.proceed()))
             }
             FlowSt::Cleanup(f) => {
@@ -92,6 +96,29 @@ fn poke(ctx: &mut Ctx, st: FlowSt) {
             }
             _ => return,
         };
+    }
+}
+
+/// Drive the flow produced by a (possibly hostile) redirect through one canned exchange that
+/// answers with a relative redirect, and resolve that one too. Nothing here may panic.
+fn follow_once(ctx: &mut Ctx, nf: ureq_proto::client::flow::Flow<(), ureq_proto::client::flow::state::Prepare>) {
+    use ureq_proto::client::flow::{RecvResponseResult, SendRequestResult};
+    ctx.count("p:followed_hostile_redirect");
+    let mut buf = vec![0u8; 4096];
+    let mut f = lib("Flow<Prepare>::proceed", || nf.proceed());
+    if lib("Flow<SendRequest>::write", || f.write(&mut buf)).is_err() {
+        return;
+    }
+    let mut r = match lib("Flow<SendRequest>::proceed", || f.proceed()) {
+        Ok(Some(SendRequestResult::RecvResponse(r))) => r,
+        _ => return,
+    };
+    let resp: &[u8] = *ctx.pick(&[&b"HTTP/1.1 302 Found\r\nLocation: ../x?y\r\n\r\n"[..], b"HTTP/1.1 301 Moved\r\nLocation: \r\n\r\n", b"HTTP/1.1 307 T\r\nLocation: ?q\r\n\r\n", b"HTTP/1.1 303 S\r\nLocation: //c.test\r\n\r\n"]);
+    if lib("Flow<RecvResponse>::try_response", || r.try_response(resp).map(|x| x.0)).is_err() {
+        return;
+    }
+    if let Some(RecvResponseResult::Redirect(mut rd)) = lib("Flow<RecvResponse>::proceed", || r.proceed()) {
+        let _ = lib("Flow<Redirect>::as_new_flow", || rd.as_new_flow(RedirectAuthHeaders::SameHost).map(|o| o.is_some()));
     }
 }
 
@@ -112,7 +139,12 @@ fn structural_pos(ctx: &mut Ctx, s: &[u8]) -> usize {
 }
 
 fn mutate(ctx: &mut Ctx, s: &mut Vec<u8>) -> &'static str {
-    match ctx.draw(11) {
+    match ctx.draw(12) {
+        11 => {
+            // bare LF line ends (tolerated by many parsers)
+            s.retain(|c| *c != b'\r');
+            "f:hostile_bare_lf"
+        }
         0 | 1 => {
             if !s.is_empty() {
                 let p = structural_pos(ctx, s);
@@ -239,10 +271,21 @@ fn gen_base_exchange(ctx: &mut Ctx) -> (ReqCfg, Vec<u8>, Vec<u8>, bool) {
         let (cl, te) = match kind {
             0 => (ClSpec::Absent, None),
             1 => (ClSpec::Num(ctx.range(0, 60) as u64), None),
-            2 => (ClSpec::Absent, Some("chunked")),
+            2 => (ClSpec::Absent, Some(*ctx.pick(&["chunked", "chunked", "gzip, chunked", "gzip, , chunked", ",chunked", "Chunk", "c", ""]))),
             _ => (ClSpec::Num(ctx.range(0, 9) as u64), None),
         };
-        let spec = RespSpec { status, http11: kind == 2 || ctx.chance(3, 4), cl, te, conn: if ctx.chance(1, 4) { vec!["close"] } else { vec![] }, generic_fields: ctx.range(0, 4), location: if (300..400).contains(&status) && ctx.chance(2, 3) { vec!["/x".into()] } else { vec![] }, location_raw: vec![], close_len: ctx.range(0, 50) };
+        // redirects point anywhere, also nowhere
+        let (location, location_raw): (Vec<String>, Vec<Vec<u8>>) = if (300..400).contains(&status) && ctx.chance(2, 3) {
+            match ctx.draw(4) {
+                0 => (vec!["/x".into()], vec![]),
+                1 => (vec![(*ctx.pick(&["http://b.test:99999/x", "http://999.1.1.1/x", "http://[::1/x", "//", "http://b.test/../../..", "../up?x#y", "HTTPS://B.TEST"])).to_string()], vec![]),
+                2 => (vec![], vec![(0..ctx.range(0, 12)).map(|_| *ctx.pick(ALPHABET)).filter(|c| *c != 0 && *c != b'\r' && *c != b'\n').collect()]),
+                _ => (vec!["http://b.test/next".into()], vec![]),
+            }
+        } else {
+            (vec![], vec![])
+        };
+        let spec = RespSpec { status, http11: kind == 2 || ctx.chance(3, 4), cl, te, conn: if ctx.chance(1, 4) { vec!["close"] } else { vec![] }, generic_fields: ctx.range(0, 4), location, location_raw, close_len: ctx.range(0, 50) };
         let p = build_resp(ctx, &cfg.method, &spec);
         if !matches!(p.truth, RF::DontCare | RF::Error) {
             break p;
